@@ -403,5 +403,32 @@ theorem resourcesFor_origin (s : Store) (p : PR) (x : Resource) (hx : x ∈ reso
               simp only [hpo, hmo, bne_iff_ne, ne_eq, Decidable.not_not] at ho
               exact ⟨a, rfl, by rw [ho]⟩
 
+/-! ## definitions used in the statements of Props/C18 -/
+
+/-- a rule over the XRD's group that names the composite plural or the claim plural `n`:
+either `[n, n/status]` with one of the verb tables, or `[n/finalizers]` with update -/
+def IsXRDRule (d : XRD) (ρ : PolicyRule) : Prop :=
+  ρ.apiGroups = [d.group] ∧ ρ.resourceNames = [] ∧ ρ.nonResourceURLs = [] ∧
+  ∃ n, (n = d.plural ∨ d.claim = some n) ∧
+    ((ρ.resources = [n, n ++ xrd_suffixStatus] ∧
+        (ρ.verbs = xrdVerbsEdit ∨ ρ.verbs = xrdVerbsView ∨ ρ.verbs = xrdVerbsBrowse)) ∨
+     (ρ.resources = [n ++ xrd_suffixFinalizers] ∧ ρ.verbs = xrdVerbsUpdate))
+
+/-- a history of reconciles of the same revision, each under its own fault plan, with the
+controller-local state lost in between (crash / requeue / restart) -/
+def runPlans (cfg : Cfg) (name : String) : List Plan → Store → Store
+  | [], s => s
+  | pl :: rest, s => runPlans cfg name rest (run sem pl 0 (reconcile cfg name) s).1
+
+/-! example data for the non-vacuity examples -/
+
+def exPR (reqs : List PolicyRule) : PR :=
+  { name := "p", uid := "u", paused := false, deleted := false, family := "", org := some ("r", "o"),
+    refs := [⟨"apiextensions.k8s.io/v1", "CustomResourceDefinition", "widgets.example.org"⟩], requests := reqs }
+
+def exStore (reqs : List PolicyRule) : Store :=
+  { prs := [exPR reqs], xrds := [], deploys := [],
+    roles := [⟨"allow", [], [⟨["get"], ["g"], ["r"], [], []⟩], none⟩], bindings := [] }
+
 end C18
 end Xp
